@@ -1146,7 +1146,16 @@ pub fn haystacks(n: &Node, f: Flags, rng: &mut Rng, count: usize) -> Vec<Vec<u32
                         4 => {
                             // a character that aliases h[i] when truncated to 8 or 16 bits, or U+0000
                             let c = h[i];
-                            let cand = [0x10000 + (c & 0xFFFF), 0x20000 + (c & 0xFFFF), 0x100 + (c & 0xFF), 0x4E00 + (c & 0xFF), 0];
+                            // … or a character whose UTF-8 encoding STARTS with the byte c (for Latin-1 c that is a lead byte)
+                            let lead = match c {
+                                0xC2..=0xDF => (c - 0xC0) << 6,
+                                0xE1..=0xEC | 0xEE..=0xEF => (c - 0xE0) << 12,
+                                0xF1..=0xF3 => (c - 0xF0) << 18,
+                                0xE0 => 0x800,
+                                0xF0 => 0x10000,
+                                _ => 0,
+                            };
+                            let cand = [0x10000 + (c & 0xFFFF), 0x20000 + (c & 0xFFFF), 0x100 + (c & 0xFF), 0x4E00 + (c & 0xFF), 0, lead, lead];
                             let a = *rng.pick(&cand);
                             if char::from_u32(a).is_some() {
                                 h[i] = a;
